@@ -8,7 +8,7 @@
 From Coq Require Import List Arith Bool NArith ZArith Permutation.
 Import ListNotations.
 From BQ Require Import lib.Trace part.PartSpec part.PartCheck part.Quick
-  part.QuickLemmas part.QuickMerge part.QuickInv part.QuickThm.
+  part.QuickLemmas part.QuickMerge part.QuickInv part.QuickThm part.QuickLive.
 
 (* ---- the verified oracle (run on the output of every partitioner) ---- *)
 Theorem C08_check_sound : forall k i o,
@@ -106,6 +106,30 @@ Proof. exact quick_all_emitted_refuted. Qed.
 
 Theorem C08_quick_correct_full_refuted : ~ C08_quick_correct_full false.
 Proof. exact quick_correct_full_refuted. Qed.
+
+(* ... and TRUE for the repaired code (fx = true: fixes/C08.Q1.patch, the blocked-qudit propagation is
+   also run when a BarrierBin is created), and for the unchanged code on circuits without
+   barriers/measurements/resets: for every circuit, block size and iteration order, when the sweep
+   ends no bin is left pending, i.e. `raise RuntimeError('Unable to process all pending bins')`
+   is unreachable.  (Invariants of part/QuickLive.v: live slots on a qudit form a chain starting at the
+   dividing line, the dependency graph between live bins is acyclic, and blocked_qudits of an active
+   bin contains the qudits of every bin that depends on it.) *)
+Theorem C08_quick_all_emitted : forall k fx nq ncyc c hints st2,
+  wf_input nq ncyc c ->
+  (fx = true \/ forall x, In x c -> okind (snd x) = KGate) ->
+  quick_state k fx nq ncyc c hints = inl st2 -> pend st2 = [].
+Proof. exact quick_all_emitted. Qed.
+
+(* Together: for the repaired code (or barrier-free input) run() returns a good partition as soon as the
+   sweep itself went through.  Still covered by correspondence only: the two `assert`s of the main loop
+   and the table lookups of the model (EAssert / ENoBin / EFuel results of `quick_state`). *)
+Theorem C08_quick_correct : forall k fx nq ncyc c hints st2,
+  wf_input nq ncyc c ->
+  (fx = true \/ forall x, In x c -> okind (snd x) = KGate) ->
+  quick_state k fx nq ncyc c hints = inl st2 ->
+  quick k fx nq ncyc c hints = inl (out st2) /\
+  good_partition k (map snd c) (out st2) /\ all_gates_blocked (out st2).
+Proof. exact quick_returns. Qed.
 
 (* non-vacuity: a well-formed circuit with a barrier and a 3-qudit gate on which the
    unchanged model returns a partition (so the hypotheses of C08_quick_correct_partial are
